@@ -37,6 +37,24 @@ const KNOWN: [&str; 30] = ["ConstantValue", "Code", "StackMapTable", "Exceptions
     "LocalVariableTable", "LocalVariableTypeTable", "Deprecated", "RuntimeVisibleAnnotations", "RuntimeInvisibleAnnotations", "RuntimeVisibleParameterAnnotations", "RuntimeInvisibleParameterAnnotations",
     "RuntimeVisibleTypeAnnotations", "RuntimeInvisibleTypeAnnotations", "AnnotationDefault", "BootstrapMethods", "MethodParameters", "Module", "ModulePackages", "ModuleMainClass", "NestHost", "NestMembers", "Record", "PermittedSubclasses"];
 
+/// `ClassFile::write` into an arbitrary `io::Write` must deliver what `to_bytes()` returns ("the announced length equals the number
+/// of bytes written"): every case also writes into a writer that accepts only a few bytes per call (legal for any `Write`; a
+/// `write` where `write_all` is needed loses bytes only there, a `Vec<u8>` takes everything).
+fn write_entry_point(rep: &mut Report, v: &ClassFile, to_bytes: &[u8], len: usize, ctx: &dyn Fn() -> Value) {
+    let seed = common::rng::fnv(to_bytes);
+    let r = guard(|| { let mut w = common::io::ChunkedWriter::new(seed, 1 + (seed % 97) as usize); v.write(&mut w).map(|_| (w.data, w.short_writes)).map_err(|e| e.to_string()) });
+    rep.count("entry.write(short-write writer)");
+    match r {
+        Err(p) => rep.violation(format!("C20 write(writer) panics: {}", p.site()), json!({"panic": p.message, "ctx": ctx()})),
+        Ok(Err(e)) => rep.violation("C20 write(writer) fails although the writer accepts every byte (a few per call)", json!({"error": e, "ctx": ctx()})),
+        Ok(Ok((data, short))) => {
+            if short > 0 { rep.count("entry.write.short_writes_happened"); }
+            if data != to_bytes { rep.violation(format!("C20 write(writer) delivers other bytes than to_bytes() when the writer accepts only a few bytes per call ({})", if data.len() < to_bytes.len() { "fewer bytes" } else { "same or more bytes" }),
+                json!({"to_bytes_len": to_bytes.len(), "length()": len, "arrived": data.len(), "ctx": ctx()})); }
+        }
+    }
+}
+
 fn roundtrip_wellformed(rep: &mut Report, bytes: &[u8], source: &str) {
     let spans = match parse::parse_with_spans(bytes) { Ok(p) => p.spans, Err(e) => { eprintln!("HARNESS-ERROR input is not well-formed: {e}"); std::process::exit(3); } };
     let two = pool_has_two_slot(bytes);
@@ -63,6 +81,7 @@ fn roundtrip_wellformed(rep: &mut Report, bytes: &[u8], source: &str) {
     };
     let out = match guard(|| (v.to_bytes(), v.length())) { Ok(o) => o, Err(_) if two => { rep.violation("C20 read fails on a well-formed class whose constant pool has a long/double entry", json!({"input_hex": hex(bytes), "source": source, "outcome": "write panics on the value read returned"})); return; } Err(p) => { rep.violation(format!("C20 write panics{tag}: {}", p.site()), json!({"input_hex": hex(bytes), "source": source, "panic": p.message})); return; } };
     let (w, len) = out;
+    write_entry_point(rep, &v, &w, len, &|| json!({"input_hex": hex(bytes), "source": source}));
     if two && (len != w.len() || w != bytes) { rep.violation("C20 read fails on a well-formed class whose constant pool has a long/double entry", json!({"input_hex": hex(bytes), "source": source, "outcome": "read returned a value that does not write back to the input"})); return; }
     if len != w.len() { rep.violation(format!("C20 length() != bytes written{tag}"), json!({"input_hex": hex(bytes), "length": len, "written": w.len(), "source": source})); }
     if w != bytes {
@@ -89,6 +108,7 @@ fn raw_values_case(rng: &mut Rng, rep: &mut Report, m: &cf::model::Class) {
     rep.count("raw.values");
     let w = match guard(|| (v.to_bytes(), v.length())) { Ok(x) => x, Err(pn) => { rep.violation(format!("C20 write panics on a value read() produced: {}", pn.site()), json!({"input_hex": hex(&bytes)})); return; } };
     if w.1 != w.0.len() { rep.violation("C20 length() != bytes written (raw value)", json!({"input_hex": hex(&bytes), "length": w.1, "written": w.0.len()})); }
+    write_entry_point(rep, &v, &w.0, w.1, &|| json!({"input_hex": hex(&bytes), "what": "raw value"}));
     match guard(|| ClassFile::read(&mut Cursor::new(&w.0[..])).map_err(|e| e.to_string())) {
         Ok(Ok(v2)) => { if v2 != v { rep.violation("C20 read(write(v)) != v", json!({"input_hex": hex(&bytes), "written_hex": hex(&w.0)})); } else { rep.count("raw.value_roundtrips"); } }
         Ok(Err(e)) => rep.violation(format!("C20 read rejects what write produced: {}", template(&e)), json!({"input_hex": hex(&bytes), "written_hex": hex(&w.0), "error": e})),
@@ -212,6 +232,7 @@ fn main() {
         rep.count("raw.values");
         let w = match guard(|| (v.to_bytes(), v.length())) { Ok(x) => x, Err(pn) => { rep.violation(format!("C20 write panics on a value read() produced: {}", pn.site()), json!({"input_hex": hex(&bytes)})); return; } };
         if w.1 != w.0.len() { rep.violation("C20 length() != bytes written (raw value)", json!({"input_hex": hex(&bytes), "length": w.1, "written": w.0.len()})); }
+    write_entry_point(rep, &v, &w.0, w.1, &|| json!({"input_hex": hex(&bytes), "what": "raw value"}));
         match guard(|| ClassFile::read(&mut Cursor::new(&w.0[..])).map_err(|e| e.to_string())) {
             Ok(Ok(v2)) => { if v2 != v { rep.violation("C20 read(write(v)) != v", json!({"input_hex": hex(&bytes), "written_hex": hex(&w.0)})); } else { rep.count("raw.value_roundtrips"); } }
             Ok(Err(e)) => rep.violation(format!("C20 read rejects what write produced: {}", template(&e)), json!({"input_hex": hex(&bytes), "written_hex": hex(&w.0), "error": e})),
